@@ -106,7 +106,7 @@ def meta(tier):
                 'replayed twice. Part B: the same programs x 4 formats through the real CLI for hash seeds 0..3 (thorough 0..15) x 2 (thorough 3) '
                 'working directories x every permutation of the include directories x {bare, cluttered, optimized (PYTHONOPTIMIZE=2, PYTHONUTF8=1)} environment, and every combination of spellings of the include '
                 'directories (relative, ./, through a detour, the same directory twice under two spellings); '
-                'plus the repository\'s example programs under their own definitions (quick: the small ones) x formats x hash seeds with rotating environment and working directory; non-trivial = execution whose schedule or environment differs from the reference execution; '
+                'plus the pretty print on standard output (pipe vs pseudo-terminal vs file) for a program with terminal control sequences in comments and strings; plus the repository\'s example programs under their own definitions (quick: the small ones) x formats x hash seeds with rotating environment and working directory; non-trivial = execution whose schedule or environment differs from the reference execution; '
                 'states = distinct (program, format, number of choice points); transitions = executions',
         'bounds': {'programs': [p[0] for p in PROGRAMS], 'hash_seeds': 4 if q else 16, 'deviating_choice_points': 1 if q else 2},
         'assumptions': ['sets are created by set(...) calls, set displays or set comprehensions inside bespokeasm (that is what the import '
@@ -223,6 +223,7 @@ def shard(acc, tier, idx, n):
                 acc.judge(clause='end-to-end', nontrivial_key=(pi, fmt, seed, cwd, perm, envname))
     spellings(acc, idx, n, ctr, q)
     corpus_end_to_end(acc, idx, n, q)
+    stdout_listing(acc, idx, n)
 
 
 def spellings(acc, idx, n, ctr0, q):
@@ -297,6 +298,81 @@ def corpus_end_to_end(acc, idx, n, q):
                 acc.judge(clause='end-to-end', nontrivial_key=('corpus', prog[0], fmt, seed))
 
 
+def _run_stdout(case, mode, root):
+    """Runs the CLI with the pretty print going to standard output, which is a pipe or a pseudo-terminal -> (returncode, bytes)"""
+    import pty
+    import termios
+    work, asm, cfg, out, pp = world._materialize(case, root)
+    argv = world.cli_argv(case, work, asm, cfg, out, pp)
+    i = argv.index('--pretty-print-output')
+    del argv[i:i + 2]
+    env = dict(BARE, PYTHONPATH=world.SRC, PYTHONDONTWRITEBYTECODE='1', PYTHONHASHSEED='0')
+    if mode == 'pipe':
+        p = subprocess.run(argv, stdout=subprocess.PIPE, stderr=subprocess.PIPE, stdin=subprocess.DEVNULL, env=env, cwd=work, timeout=120)
+        return p.returncode, p.stdout
+    master, slave = pty.openpty()
+    attrs = termios.tcgetattr(slave)
+    attrs[1] &= ~termios.OPOST           # no output post-processing: the bytes arrive as written
+    termios.tcsetattr(slave, termios.TCSANOW, attrs)
+    p = subprocess.Popen(argv, stdout=slave, stderr=subprocess.PIPE, stdin=subprocess.DEVNULL, env=env, cwd=work)
+    os.close(slave)
+    chunks = []
+    while True:
+        try:
+            b = os.read(master, 65536)
+        except OSError:
+            break
+        if not b:
+            break
+        chunks.append(b)
+    os.close(master)
+    p.stderr.read()
+    return p.wait(timeout=120), b''.join(chunks)
+
+
+STDOUT_PROGRAM = (' nop ; clears the screen with \x1b[2J\x1b[H first\n'
+                  'msg: .cstr "\x1b[1mHELLO\x1b[0m"\n'
+                  ' ld a, 1 ; plain\n'
+                  ' .byte "\x1b[31m", 7 ; red\n')
+
+
+def stdout_listing(acc, idx, n):
+    """The pretty print written to standard output is the same bytes whether standard output is a pipe or a terminal, and the same
+    text as the one written to a file - also when the source carries terminal control sequences in comments and strings."""
+    for k, fmt in enumerate(FORMATS_B):
+        if k % n != idx:
+            continue
+        case = Case(ISA, {'main.asm': STDOUT_PROGRAM}, pretty=fmt, binary=False)
+        root = tempfile.mkdtemp(prefix='bespokeverif_c15_', dir='/dev/shm' if os.path.isdir('/dev/shm') else None)
+        try:
+            rc_pipe, via_pipe = _run_stdout(case, 'pipe', root)
+            rc_tty, via_tty = _run_stdout(case, 'tty', root)
+        finally:
+            import shutil
+            shutil.rmtree(root, ignore_errors=True)
+        to_file = world.run_cli(case, env_extra={'PYTHONHASHSEED': '0'}, env_base=BARE)
+        acc.count_eval(3, 'OK' if rc_pipe == 0 else 'REJECT')
+        acc.transition(3)
+        msg = None
+        if rc_pipe != rc_tty:
+            msg = f'exit status {rc_pipe} with standard output on a pipe, {rc_tty} on a terminal'
+        elif via_pipe != via_tty:
+            msg = f'{fmt} on standard output differs between a pipe ({len(via_pipe)} bytes) and a terminal ({len(via_tty)} bytes)'
+        elif to_file.pretty is not None and to_file.pretty.strip() not in via_pipe.decode('utf-8', 'replace').replace(world_dir_of(via_pipe), '<W>'):
+            msg = f'{fmt} written to a file is not the text written to standard output'
+        if msg:
+            spec = {'type': 'stdout', 'format': fmt}
+            acc.violation([case], spec, msg, [Outcome('OK' if rc_pipe == 0 else 'REJECT', None, via_pipe, None), Outcome('OK' if rc_tty == 0 else 'REJECT', None, via_tty, None)])
+        acc.judge(clause='end-to-end', nontrivial_key=('stdout', fmt))
+
+
+def world_dir_of(data):
+    """The scratch directory named in a listing written to standard output (file names are shown with their directory)."""
+    import re
+    m = re.search(rb'(/[^\s]*bespokeverif_c15_[^/\s]*/w)', data)
+    return m.group(1).decode() if m else '\0'
+
+
 # ---- confirmation / replay ------------------------------------------------------------------------------------------
 
 def judge(spec, outcomes):
@@ -311,6 +387,22 @@ def confirm(viol):
         out = world.run_cli(Case.from_json(viol['cases'][1]), env_extra={'PYTHONHASHSEED': str(spec['seed'])}, cwd=spec['cwd'],
                             env_base=ENVS[spec['env']])
         return judge(spec, [ref, out]), [ref, out]
+    if spec['type'] == 'stdout':
+        case = Case.from_json(viol['cases'][0])
+        root = tempfile.mkdtemp(prefix='bespokeverif_c15_', dir='/dev/shm' if os.path.isdir('/dev/shm') else None)
+        try:
+            rc_pipe, via_pipe = _run_stdout(case, 'pipe', root)
+            rc_tty, via_tty = _run_stdout(case, 'tty', root)
+        finally:
+            import shutil
+            shutil.rmtree(root, ignore_errors=True)
+        outs = [Outcome('OK' if rc_pipe == 0 else 'REJECT', None, via_pipe, None), Outcome('OK' if rc_tty == 0 else 'REJECT', None, via_tty, None)]
+        if rc_pipe != rc_tty or via_pipe != via_tty:
+            return f'{spec["format"]} on standard output differs between a pipe ({len(via_pipe)} bytes) and a terminal ({len(via_tty)} bytes)', outs
+        to_file = world.run_cli(case, env_extra={'PYTHONHASHSEED': '0'}, env_base=BARE)
+        if to_file.pretty is not None and to_file.pretty.strip() not in via_pipe.decode('utf-8', 'replace').replace(world_dir_of(via_pipe), '<W>'):
+            return f'{spec["format"]} written to a file is not the text written to standard output', outs
+        return None, outs
     # schedule: replay in a fresh process with the import hook
     with tempfile.NamedTemporaryFile('w', suffix='.json', delete=False) as f:
         json.dump(viol, f, default=str)
